@@ -45,7 +45,7 @@ func init() {
 	core.Register(&core.Monitor{
 		ID:            "C17",
 		Race:          true,
-		Rule:          "exhaustive product. Engine raw: local role {client, server} x mode {NtN, NtC, DMQ} x local fullDuplex x peer diffusion flag x version (quick: lowest and highest of each table, thorough: every version) x local peer-sharing flag x peer peer-sharing flag (NtN only), and for each configuration one connection per probe: protocol id 0..20 x segment direction {request, response}, plus 'forced' probes (for every protocol of the version the harness starts, through the public API, the instance of the role the negotiation did not enable and the peer sends it a message). Engine pair: real client <-> real server for mode x fullDuplex of either side x peer-sharing of either side, one connection per (enabled protocol, direction). A case is non-trivial when the handshake completed on the forced version and the probe produced a deciding observation (trace event or connection error); distinct by (engine, configuration, probe)",
+		Rule:          "exhaustive product. Engine raw: local role {client, server} x mode {NtN, NtC, DMQ} x local fullDuplex x peer diffusion flag x version (quick: lowest and highest of each table, thorough: every version) x local peer-sharing flag x peer peer-sharing flag (NtN only), and for each configuration one connection per probe: protocol id 0..20 x segment direction {request, response}, plus 'forced' probes (for every protocol of the version the harness starts, through the public API, the instance of the role the negotiation did not enable and the peer sends it a message). Engine pair: real client <-> real server for mode x fullDuplex of either side x peer-sharing of either side, one connection per (enabled protocol, direction). A case is non-trivial when the handshake completed on the forced version and the probe produced a deciding observation (trace event or connection error); distinct by (engine, configuration, probe); the product is exhaustive, the case list does not depend on the seed",
 		MinNontrivial: 1500,
 		RaceAnchors:   []string{"muxer.(*Muxer).readLoop", "muxer.(*Muxer).SetDiffusionMode", "(*Connection).setupConnection", "muxer.(*Muxer).RegisterProtocol"},
 		Assumptions: []string{
